@@ -3,17 +3,20 @@
 package main
 
 import (
+	"context"
 	"fmt"
 	"os"
 	"path/filepath"
 	"strings"
 	"testing"
 
+	old_faithful_grpc "github.com/rpcpool/yellowstone-faithful/old-faithful-proto/old-faithful-grpc"
 	"github.com/rpcpool/yellowstone-faithful/zzverif/cargen"
 	"github.com/rpcpool/yellowstone-faithful/zzverif/explore"
 	"github.com/rpcpool/yellowstone-faithful/zzverif/vkit"
 	"github.com/rpcpool/yellowstone-faithful/zzverif/vsched"
 	"github.com/valyala/fasthttp"
+	"google.golang.org/protobuf/proto"
 )
 
 // C09 (family 2): a real JSON-RPC request on a loaded epoch E1 runs concurrently with a reload
@@ -35,7 +38,7 @@ func TestVerif_C09_Handlers(t *testing.T) {
 	defer R.Finish()
 	base := vkBase("c09h")
 	defer os.RemoveAll(base)
-	R.Rule = "family 2: scenario = one real JSON-RPC request (getBlock / getTransaction / getBlockTime / getSignaturesForAddress on epoch E1, getSlot, getFirstAvailableBlock) x one reload operation on epoch E2 (AddEpoch, ReplaceOrAddEpoch, RemoveEpoch, RemoveEpochByConfigFilepath, Add then Remove) x E2 loaded at start or not; all interleavings within preemption bound 2 (thorough 3) with happens-before pruning; response compared with the idle-server response(s)"
+	R.Rule = "family 2: scenario = one real request (JSON-RPC getBlock / getTransaction / getBlockTime / getSignaturesForAddress on epoch E1, getSlot, getFirstAvailableBlock; gRPC GetBlock / GetTransaction / StreamBlocks / index-accelerated StreamTransactions with two per-account workers on E1) x one reload operation on epoch E2 (AddEpoch, ReplaceOrAddEpoch, RemoveEpoch, RemoveEpochByConfigFilepath, Add then Remove) x E2 loaded at start or not; all interleavings within preemption bound 2 (thorough 3) with happens-before pruning; response compared with the idle-server response(s)"
 	e1, err := vkBuildEpoch(filepath.Join(base, "e1"), cargen.SimpleShape(1, 5, 3, 2), true)
 	if err != nil {
 		R.Internal("build e1: %v", err)
@@ -63,7 +66,65 @@ func TestVerif_C09_Handlers(t *testing.T) {
 		"getSlot":                 `{"jsonrpc":"2.0","id":1,"method":"getSlot"}`,
 		"getFirstAvailableBlock":  `{"jsonrpc":"2.0","id":1,"method":"getFirstAvailableBlock"}`,
 	}
-	qnames := []string{"getBlock", "getTransaction", "getBlockTime", "getSignaturesForAddress", "getSlot", "getFirstAvailableBlock"}
+	qnames := []string{"getBlock", "getTransaction", "getBlockTime", "getSignaturesForAddress", "getSlot", "getFirstAvailableBlock",
+		"grpc:GetBlock", "grpc:GetTransaction", "grpc:StreamTransactions(2 accounts)", "grpc:StreamBlocks"}
+	// ask performs one query against m and renders its answer as a string (panics are returned, not raised)
+	ask := func(q string, m *MultiEpoch, h func(*fasthttp.RequestCtx)) (resp []byte, pan interface{}) {
+		if body, ok := queries[q]; ok {
+			_, r, p := vkRPCh(h, body)
+			return r, p
+		}
+		defer func() {
+			if r := recover(); r != nil {
+				pan = r
+			}
+		}()
+		ctx := context.Background()
+		render := func(err error, parts ...string) []byte {
+			if err != nil {
+				return []byte("error: " + err.Error())
+			}
+			return []byte(strings.Join(parts, ","))
+		}
+		switch q {
+		case "grpc:GetBlock":
+			r, err := m.GetBlock(ctx, &old_faithful_grpc.BlockRequest{Slot: e1.Truth.Blocks[1].Slot})
+			if err != nil {
+				return render(err), nil
+			}
+			b, _ := proto.MarshalOptions{Deterministic: true}.Marshal(r)
+			return []byte(vkit.Hash(string(b))), nil
+		case "grpc:GetTransaction":
+			r, err := m.GetTransaction(ctx, &old_faithful_grpc.TransactionRequest{Signature: e1.Truth.Txs[2].Sig[:]})
+			if err != nil {
+				return render(err), nil
+			}
+			b, _ := proto.MarshalOptions{Deterministic: true}.Marshal(r)
+			return []byte(vkit.Hash(string(b))), nil
+		case "grpc:StreamTransactions(2 accounts)":
+			end := e1.Truth.Blocks[len(e1.Truth.Blocks)-1].Slot
+			st := &vkTxStream{vkStreamBase: vkBase0()}
+			err := m.StreamTransactions(&old_faithful_grpc.StreamTransactionsRequest{StartSlot: e1.Truth.Blocks[0].Slot, EndSlot: &end,
+				Filter: &old_faithful_grpc.StreamTransactionsFilter{AccountInclude: []string{cargen.Account(0).String(), cargen.Account(1).String()}}}, st)
+			var parts []string
+			for _, g := range st.Got {
+				if g.Transaction != nil {
+					parts = append(parts, vkit.Hash(string(g.Transaction.Transaction))[:8])
+				}
+			}
+			return render(err, parts...), nil
+		case "grpc:StreamBlocks":
+			end := e1.Truth.Blocks[2].Slot
+			st := &vkBlockStream{vkStreamBase: vkBase0()}
+			err := m.StreamBlocks(&old_faithful_grpc.StreamBlocksRequest{StartSlot: e1.Truth.Blocks[0].Slot, EndSlot: &end}, st)
+			var parts []string
+			for _, g := range st.Got {
+				parts = append(parts, fmt.Sprint(g.Slot))
+			}
+			return render(err, parts...), nil
+		}
+		return []byte("unknown query " + q), nil
+	}
 	writers := []string{"AddEpoch", "ReplaceOrAddEpoch", "RemoveEpoch", "RemoveEpochByConfigFilepath", "Add-then-Remove"}
 	strip := func(b []byte) string { return string(b) }
 	// idle responses with {E1} and with {E1,E2}
@@ -81,7 +142,7 @@ func TestVerif_C09_Handlers(t *testing.T) {
 		}
 		h := newMultiEpochHandler(m, nil)
 		for _, q := range qnames {
-			_, resp, pan := vkRPC(h, queries[q])
+			resp, pan := ask(q, m, h)
 			if pan != nil {
 				R.Internal("idle %s panicked: %v", q, pan)
 				return
@@ -146,7 +207,7 @@ func TestVerif_C09_Handlers(t *testing.T) {
 			h := newMultiEpochHandler(m, nil)
 			done := make(chan struct{}, 2)
 			vsched.Go(func() {
-				_, resp, pan = vkRPCh(h, queries[sc.Query])
+				resp, pan = ask(sc.Query, m, h)
 				returned = true
 				vsched.Send(done, struct{}{})
 			})
